@@ -48,11 +48,16 @@ structure STable where
   unresolved : Bool := false
   /-- names of constraints / indexes that went away with a dropped column (dropping them afterwards is fine) -/
   implicitlyGone : List String := []
+  /-- `partial_reordering` was given: the caller asked for an order, so "surviving columns keep their relative order"
+      is not demanded; the consecutive pairs of the tuples are (as `precedes`) -/
+  explicitOrder : Bool := false
   deriving Repr
 
-def STable.ofSchema (s : Schema) : STable :=
+def STable.ofSchema (s : Schema) (partialReordering : List (List String) := []) : STable :=
   { cols := s.cols.map (fun c => { col := c, orig := some c.name }),
-    pk := s.pk, uniques := s.uniques, checks := s.checks, fks := s.fks, indexes := s.indexes }
+    pk := s.pk, uniques := s.uniques, checks := s.checks, fks := s.fks, indexes := s.indexes,
+    explicitOrder := !partialReordering.isEmpty,
+    precedes := (partialReordering.map tuplePairs).flatten }
 
 /-- current name of the column an operation calls `n`: original name first, then current name -/
 def STable.resolve (t : STable) (n : String) : Option String :=
@@ -168,6 +173,8 @@ def specOp (t : STable) : BatchOp → Except SErr STable
       .ok { t with checks := t.checks.filter (fun c => c.name != some n), implicitlyGone := n :: t.implicitlyGone }
     else .ok t
 
+  | .tableComment => .ok t
+
 def specApply (t : STable) : List BatchOp → Except SErr STable
   | [] => .ok t
   | o :: r =>
@@ -185,13 +192,17 @@ def allowedValues (ct : ConvTable) (c : SCol) (srcTy : String) (v : Value) : Lis
     let chain := c.retyped.foldl (fun s ty => s ++ s.map (convert ct ty true)) [v]
     (if c.col.ty == srcTy then chain else []) ++ chain.map (convert ct c.col.ty false)
 
-/-- for one original row: per surviving column (in spec order) the allowed values -/
+/-- columns whose values must be carried over: surviving original columns that are not generated (a generated
+    column is recomputed by the database from the copied columns) -/
+def carried (c : SCol) : Option String := if c.col.computed.isSome then none else c.orig
+
+/-- for one original row: per carried column (in spec order) the allowed values -/
 def expectedRow (ct : ConvTable) (before : Schema) (t : STable) (r : Row) : List (List Value) :=
-  t.cols.filterMap (fun c => c.orig.map (fun o =>
+  t.cols.filterMap (fun c => (carried c).map (fun o =>
     allowedValues ct c ((srcType before.cols o).getD "") (cell before.cols r o)))
 
 def actualRow (after : Schema) (t : STable) (r : Row) : Row :=
-  t.cols.filterMap (fun c => c.orig.map (fun _ => cell after.cols r c.col.name))
+  t.cols.filterMap (fun c => (carried c).map (fun _ => cell after.cols r c.col.name))
 
 def rowMatches (pat : List (List Value)) (r : Row) : Bool :=
   pat.length == r.length && (pat.zip r).all (fun p => p.1.contains p.2)
@@ -219,7 +230,8 @@ def hasConst (l : List Const) (c : Const) : Bool :=
   | _ => l.any (fun x => x.name == c.name && x.cols == c.cols)
 
 def colSame (want have_ : ColDef) : Bool :=
-  want.ty == have_.ty && want.nullable == have_.nullable && want.default == have_.default
+  want.ty == have_.ty && want.nullable == have_.nullable && want.default == have_.default &&
+  want.computed == have_.computed && want.persisted == have_.persisted
 
 /-- positions respect `x before y` -/
 def precedesOk (names : List String) (p : String × String) : Bool :=
@@ -269,16 +281,16 @@ def schemaReasons (t : STable) (after : Schema) : List String :=
 def orderReasons (t : STable) (after : Schema) : List String :=
   let names := after.cols.map (·.name)
   let survivors := (t.cols.filter (·.orig.isSome)).map (·.col.name)
-  (if isSubseq survivors names then [] else ["order: surviving columns changed their relative order"]) ++
+  (if t.explicitOrder || isSubseq survivors names then [] else ["order: surviving columns changed their relative order"]) ++
   (t.precedes.filterMap (fun p => if precedesOk names p then none else
      some ("order: " ++ p.1 ++ " should come before " ++ p.2)))
 
 /-- C10 on one before/after observation of a batch that completed and recreated the table -/
 def check10 (ct : ConvTable) (_table : String) (before : Tbl) (ops : List BatchOp) (after : Tbl)
-    (tmpLike : List String) : List String :=
+    (tmpLike : List String) (partialReordering : List (List String) := []) : List String :=
   (if tmpLike.isEmpty then [] else ["no_tmp: temporary table left behind: " ++ toString tmpLike]) ++
   (if after.rows.length == before.rows.length then [] else ["rowcount: number of rows changed"]) ++
-  (match specApply (STable.ofSchema before.schema) ops with
+  (match specApply (STable.ofSchema before.schema partialReordering) ops with
    | .error .mustReject =>
      ["values: the batch adds a column under the name of an existing column and was accepted: the existing column's values are replaced"]
    | .error _ => []
